@@ -244,6 +244,10 @@ def decide(prop, tier, seed, mod, m, wall, single_case=False):
     deciding = getattr(mod, "DECIDING", [])
     for name in deciding:
         n = m["judged"].get(name, 0) + m["checks"].get(name, 0)
+        if n == 0 and m["notes"].get(f"hook-missing:{name}"):
+            # a PRIVATE helper that this tree does not have (renamed / inlined by a refactoring): there is nothing to
+            # observe at that place; the property is decided by the monitors on the public entry points
+            continue
         if n == 0 and not single_case:
             reasons.append(f"deciding monitor '{name}' never gave a verdict")
     for b in getattr(mod, "BRANCHES", []):
